@@ -40,3 +40,117 @@ package machine
 //@   loop 2 decreases len(f.Parts) - i
 //@   nopanic
 //@   property C01 C03
+//@   ensures err == nil ==> len(ret0.Parts) <= len(f.Parts)
+//@   ensures err == nil ==> forall j in 0..len(ret0.Parts) :: ret0.Parts[j].Account == f.Parts[j].Account && val(ret0.Parts[j].Amount) <= val(f.Parts[j].Amount)
+//@   ensures err == nil ==> forall j in 0..len(ret0.Parts)-1 :: val(ret0.Parts[j].Amount) == val(f.Parts[j].Amount)
+//@   loop 1 invariant len(result.Parts) == i || (i == 0 && val(amount) == 0 && len(result.Parts) == 1 && len(f.Parts) > 0)
+//@   loop 1 invariant forall j in 0..len(result.Parts) :: result.Parts[j].Account == f.Parts[j].Account && val(result.Parts[j].Amount) <= val(f.Parts[j].Amount)
+//@   loop 1 invariant forall j in 0..len(result.Parts)-1 :: val(result.Parts[j].Amount) == val(f.Parts[j].Amount)
+//@   loop 1 invariant val(remainingToWithdraw) > 0 ==> (forall j in 0..len(result.Parts) :: val(result.Parts[j].Amount) == val(f.Parts[j].Amount))
+//@   loop 2 invariant len(result.Parts) <= len(f.Parts)
+
+//@ func (machine.Funding).TakeMax
+//@   requires amount != nil && val(amount) >= 0 && allNonNeg(f.Parts)
+//@   ensures total(ret0.Parts) == min(val(amount), total(f.Parts))
+//@   ensures allNonNeg(ret0.Parts) && allNonNeg(ret1.Parts)
+//@   ensures ret0.Asset == f.Asset && ret1.Asset == f.Asset
+//@   ensures forall a AccountAddress :: sumFor(ret0.Parts, a) + sumFor(ret1.Parts, a) == sumFor(f.Parts, a)
+//@   ensures len(ret0.Parts) <= len(f.Parts)
+//@   ensures forall j in 0..len(ret0.Parts) :: ret0.Parts[j].Account == f.Parts[j].Account && val(ret0.Parts[j].Amount) <= val(f.Parts[j].Amount)
+//@   ensures forall j in 0..len(ret0.Parts)-1 :: val(ret0.Parts[j].Amount) == val(f.Parts[j].Amount)
+//@   loop 1 invariant 0 <= i && i <= len(f.Parts)
+//@   loop 1 invariant remainingToWithdraw != nil && val(remainingToWithdraw) == val(amount) - total(result.Parts)
+//@   loop 1 invariant val(remainingToWithdraw) >= 0
+//@   loop 1 invariant total(result.Parts) + total(remainder.Parts) == total(f.Parts[:i])
+//@   loop 1 invariant forall a AccountAddress :: sumFor(result.Parts, a) + sumFor(remainder.Parts, a) == sumFor(f.Parts[:i], a)
+//@   loop 1 invariant allNonNeg(result.Parts) && allNonNeg(remainder.Parts)
+//@   loop 1 invariant result.Asset == f.Asset && remainder.Asset == f.Asset
+//@   loop 1 invariant total(result.Parts) >= 0 && total(remainder.Parts) >= 0
+//@   loop 1 invariant val(remainingToWithdraw) > 0 ==> total(remainder.Parts) == 0
+//@   loop 1 invariant len(result.Parts) == i
+//@   loop 1 invariant forall j in 0..len(result.Parts) :: result.Parts[j].Account == f.Parts[j].Account && val(result.Parts[j].Amount) <= val(f.Parts[j].Amount)
+//@   loop 1 invariant forall j in 0..len(result.Parts)-1 :: val(result.Parts[j].Amount) == val(f.Parts[j].Amount)
+//@   loop 1 invariant val(remainingToWithdraw) > 0 ==> (forall j in 0..len(result.Parts) :: val(result.Parts[j].Amount) == val(f.Parts[j].Amount))
+//@   loop 1 decreases len(f.Parts) - i
+//@   loop 2 invariant 0 <= i && i <= len(f.Parts)
+//@   loop 2 invariant total(result.Parts) + total(remainder.Parts) == total(f.Parts[:i])
+//@   loop 2 invariant forall a AccountAddress :: sumFor(result.Parts, a) + sumFor(remainder.Parts, a) == sumFor(f.Parts[:i], a)
+//@   loop 2 invariant allNonNeg(result.Parts) && allNonNeg(remainder.Parts)
+//@   loop 2 invariant result.Asset == f.Asset && remainder.Asset == f.Asset
+//@   loop 2 invariant remainingToWithdraw != nil && val(remainingToWithdraw) == val(amount) - total(result.Parts)
+//@   loop 2 invariant val(remainingToWithdraw) >= 0
+//@   loop 2 invariant i < len(f.Parts) ==> val(remainingToWithdraw) <= 0
+//@   loop 2 invariant total(result.Parts) >= 0 && total(remainder.Parts) >= 0
+//@   loop 2 invariant val(remainingToWithdraw) > 0 ==> total(remainder.Parts) == 0
+//@   loop 2 invariant len(result.Parts) <= len(f.Parts)
+//@   loop 2 decreases len(f.Parts) - i
+//@   nopanic
+//@   property C01 C03
+
+//@ func (machine.Funding).Total
+//@   requires allNonNeg(f.Parts)
+//@   ensures ret != nil && val(ret) == total(f.Parts)
+//@   loop 1 invariant 0 - 1 <= rangeindex && rangeindex < len(f.Parts)
+//@   loop 1 invariant total != nil && val(total) == total(f.Parts[:rangeindex+1])
+//@   loop 1 decreases len(f.Parts) - rangeindex
+//@   nopanic
+//@   property C01 C03
+
+//@ func (machine.Funding).Reverse
+//@   ensures ret.Asset == f.Asset && len(ret.Parts) == len(f.Parts)
+//@   ensures forall j in 0..len(f.Parts) :: ret.Parts[j] == f.Parts[len(f.Parts)-1-j]
+//@   ensures total(ret.Parts) == total(f.Parts)
+//@   ensures forall a AccountAddress :: sumFor(ret.Parts, a) == sumFor(f.Parts, a)
+//@   ensures allNonNeg(f.Parts) ==> allNonNeg(ret.Parts)
+//@   loop 1 invariant 0 - 1 <= i && i < len(f.Parts) && len(newParts) == len(f.Parts) - 1 - i
+//@   loop 1 invariant forall j in 0..len(newParts) :: newParts[j] == f.Parts[len(f.Parts)-1-j]
+//@   loop 1 invariant total(newParts) == total(f.Parts[i+1:])
+//@   loop 1 invariant forall a AccountAddress :: sumFor(newParts, a) == sumFor(f.Parts[i+1:], a)
+//@   loop 1 invariant allNonNeg(f.Parts) ==> allNonNeg(newParts)
+//@   loop 1 decreases i + 1
+//@   nopanic
+//@   property C01 C03
+
+//@ func (machine.Funding).Concat
+//@   requires allNonNeg(f.Parts) && allNonNeg(other.Parts)
+//@   ensures err != nil <==> f.Asset != other.Asset
+//@   ensures err == nil ==> ret0.Asset == f.Asset
+//@   ensures err == nil ==> total(ret0.Parts) == total(f.Parts) + total(other.Parts)
+//@   ensures err == nil ==> forall a AccountAddress :: sumFor(ret0.Parts, a) == sumFor(f.Parts, a) + sumFor(other.Parts, a)
+//@   ensures err == nil ==> allNonNeg(ret0.Parts)
+//@   nopanic
+//@   property C01 C03
+
+// ---- allotments. mulR(a, p) is the (uninterpreted) product of an integer and a
+// rational; the link to the code is the math/big model
+// Div(Mul(a, Num(p)), Denom(p)) == floor(mulR(a, p)).
+//@ fold sumR(s []big.Rat) real = sum x :: x
+//@ fold wsum(s []big.Rat, a int) real = sum x :: mulR(a, x)
+//@ fold wfloor(s []big.Rat, a int) int = sum x :: floor(mulR(a, x))
+//@ fold allShares(s []big.Rat) bool = all x :: x >= 0
+//@ fold isum(s []*MonetaryInt) int = sum x :: ite(x == nil, 0, val(x))
+
+//@ func (machine.Allotment).Allocate
+//@   requires amount != nil && val(amount) >= 0 && allShares(a)
+//@   requires wsum(a, val(amount)) == toReal(val(amount))     // the shares add up to the whole: established from sumR(a) == 1 at the call site
+//@   ensures len(ret) == len(a)
+//@   ensures forall j in 0..len(a) :: ret[j] != nil && val(ret[j]) == floor(mulR(val(amount), a[j])) + ite(j < val(amount) - wfloor(a, val(amount)), 1, 0)
+//@   ensures forall j in 0..len(a) :: val(ret[j]) >= 0
+//@   ensures isum(ret) == val(amount)
+//@   ensures 0 <= val(amount) - wfloor(a, val(amount)) && val(amount) - wfloor(a, val(amount)) <= len(a)
+//@   loop 1 invariant 0 - 1 <= rangeindex && rangeindex < len(a) && len(parts) == len(a)
+//@   loop 1 invariant totalAllocated != nil && val(totalAllocated) == wfloor(a[:rangeindex+1], val(amount))
+//@   loop 1 invariant forall j in 0..rangeindex+1 :: parts[j] != nil && val(parts[j]) == floor(mulR(val(amount), a[j]))
+//@   loop 1 invariant forall j in rangeindex+1..len(a) :: parts[j] == nil
+//@   loop 1 invariant isum(parts) == wfloor(a[:rangeindex+1], val(amount))
+//@   loop 1 invariant toReal(wfloor(a[:rangeindex+1], val(amount))) <= wsum(a[:rangeindex+1], val(amount))
+//@   loop 1 invariant wsum(a[:rangeindex+1], val(amount)) < toReal(wfloor(a[:rangeindex+1], val(amount)) + rangeindex + 1) || rangeindex + 1 == 0
+//@   loop 1 invariant amtBigint == val(amount)
+//@   loop 1 decreases len(a) - rangeindex
+//@   loop 2 invariant 0 - 1 <= rangeindex && rangeindex < len(parts) && len(parts) == len(a)
+//@   loop 2 invariant totalAllocated != nil && val(totalAllocated) == wfloor(a, val(amount)) + min(rangeindex + 1, val(amount) - wfloor(a, val(amount)))
+//@   loop 2 invariant forall j in 0..len(a) :: parts[j] != nil && val(parts[j]) == floor(mulR(val(amount), a[j])) + ite(j < rangeindex + 1 && j < val(amount) - wfloor(a, val(amount)), 1, 0)
+//@   loop 2 invariant isum(parts) == val(totalAllocated)
+//@   loop 2 decreases len(parts) - rangeindex
+//@   nopanic
+//@   property C03
